@@ -38,7 +38,7 @@ impl Prop for C05P {
     }
     fn rule(&self) -> String {
         "the C01 search repeated over TooDee<Tracked> (elements registered in a drop ledger by unique id, with a canary) and TooDee<TrackedZst> (zero-sized, created/dropped counters); \
-         alphabet = every operation that moves elements (insert/push from owned iterators, remove/pop with every front/back consumption split - yielded elements are held and dropped after the drain -, removal consumed through nth / nth_back / skip+step_by / rev+skip / last / count, removal whose drain is LEAKED with mem::forget after every consumption split (the state is then read back from the array and the search continues from it), clear, fill, clone_from_slice, clone_from_toodee, swaps, sorts, translate, flips, indexed replacement) \
+         alphabet = every operation that moves elements (insert/push from owned iterators, remove/pop with every front/back consumption split - yielded elements are held and dropped after the drain -, removal consumed through nth / nth_back / skip+step_by / rev+skip / last / count, removal whose drain is LEAKED with mem::forget after every consumption split (the state is then read back from the array and the search continues from it), clear, fill, clone_from_slice, clone_from_toodee, Clone::clone_from, swaps, sorts, translate, flips, indexed replacement) \
          plus terminal actions in every state (drop, clone and drop in either order, Vec::from, Box::from, into_iter consumed (f,b) then dropped, TooDee::from(view/view_mut) of every window). \
          For Tracked elements every transition is additionally re-run once per call into the element type's own code (Clone, Drop, Ord::cmp) with that call panicking: afterwards the array must be valid and nothing dropped twice. Oracle after every transition: every reachable cell is live, canary-valid and pairwise distinct; no double drop, no drop of a never-constructed value; when nothing panicked, live elements == reachable cells; \
          after the array is dropped the ledger is empty; guard allocator clean. Non-trivial = accepted call or terminal action; distinct by (state, action, capacity variant)."
